@@ -18,6 +18,7 @@ import (
 	"github.com/transparency-dev/formats/log"
 	f_note "github.com/transparency-dev/formats/note"
 	"github.com/transparency-dev/witness/internal/feeder"
+	"github.com/transparency-dev/witness/internal/verif/kit/asmunits"
 	"github.com/transparency-dev/witness/internal/verif/kit/ev"
 	"github.com/transparency-dev/witness/internal/verif/kit/gen"
 	"github.com/transparency-dev/witness/internal/verif/kit/refnote"
@@ -161,6 +162,9 @@ func main() {
 			jobs = append(jobs, job{sc, p})
 		}
 	}
+	// the assembled service with two logs whose keys share a name: a checkpoint signed by the other log's key
+	run.Floor("assembled_cross_signed_episodes", 5)
+	run.Units("asm_cross_signed", run.Pick(6, 48), 6, func(unit int64, r *rand.Rand) { asmunits.CrossSigned(run, unit, r) })
 	run.Units("faults", len(jobs), len(jobs), func(unit int64, r *rand.Rand) {
 		j := jobs[unit]
 		faults(run, unit, r, j.scen, j.pat)
